@@ -126,7 +126,7 @@ pub fn run(ctx: &Ctx) -> Report {
     Report {
         acc,
         exhaustive: true,
-        rule: "request messages whose attribute lists are all sequences (duplicates included) up to the depth over {SOFTWARE, USERNAME, PRIORITY, 0x7F00, 0xFF00, MESSAGE-INTEGRITY, MESSAGE-INTEGRITY-SHA256, FINGERPRINT} that the reference decoder accepts x methods {0,1,0xFFF}; type universe of 9 (those 8 + USE-CANDIDATE, never present); per message: supported = any subset of the present types + none/all of the absent ones, required = any subset of the present types + none/one/all of the absent ones; for messages of <= 2 attributes (method 1) all 2^9 x 2^9 supported x required subsets; comprehension_required for all 65536 types; distinct_nontrivial = request messages".into(),
+        rule: "request messages whose attribute lists are all sequences (duplicates included) up to the depth over {SOFTWARE, USERNAME, PRIORITY, 0x7F00, 0xFF00, MESSAGE-INTEGRITY, MESSAGE-INTEGRITY-SHA256, FINGERPRINT} that the reference decoder accepts x methods {0,1,0xFFF}; type universe of 9 (those 8 + USE-CANDIDATE, never present); per message: supported = any subset of the present types + none/all of the absent ones, required = any subset of the present types + none/one/all of the absent ones; for messages of <= 2 attributes (method 1) all 2^9 x 2^9 supported x required subsets; every third configuration repeated with reversed lists whose entries are duplicated; comprehension_required for all 65536 types; distinct_nontrivial = request messages".into(),
         bounds: json!({"messages": n_msgs, "depth": depth, "configurations_per_message": "<= 2^k * 2 * 2^k * 3 for k present universe types; 262144 for messages of <= 2 attributes"}),
         assumptions: vec!["UNKNOWN-ATTRIBUTES is compared modulo repeats (the statement does not say whether a type present twice is listed twice)".into()],
         ..Default::default()
@@ -170,6 +170,24 @@ pub fn judge(case: &Case, acc: &mut Acc) {
             let supt: Vec<AttributeType> = sup.iter().map(|t| AttributeType::new(*t)).collect();
             let reqt: Vec<AttributeType> = req.iter().map(|t| AttributeType::new(*t)).collect();
             let got = Message::check_attribute_types(&msg, &supt, &reqt);
+            // the verdict is a function of the *sets*: reversed lists with every entry repeated
+            // must give the same answer (compared as: none / bytes of the generated response)
+            if (case.args[0] + case.args[1]) % 3 == 0 {
+                let mut sup2: Vec<AttributeType> = supt.iter().rev().copied().collect();
+                sup2.extend(supt.iter().copied());
+                let mut req2: Vec<AttributeType> = reqt.iter().rev().copied().collect();
+                req2.extend(reqt.iter().copied());
+                let again = Message::check_attribute_types(&msg, &sup2, &req2).map(|b| b.build());
+                let first = got.as_ref().map(|b| b.build());
+                let same = match (&first, &again) {
+                    (None, None) => true,
+                    (Some(a), Some(b)) => a == b,
+                    _ => false,
+                };
+                if !same {
+                    viol!(acc, P, "list-order-or-repeats-change-verdict", case, "the verdict changes when the supported / required lists are reversed and their entries repeated", format!("{:?}", first.map(|b| fmt_bytes(&b))), format!("{:?}", again.map(|b| fmt_bytes(&b))));
+                }
+            }
             match (&want, got) {
                 (Police::Nothing, None) => acc.outcome("no error response"),
                 (Police::Nothing, Some(b)) => {
